@@ -759,6 +759,56 @@ def iter_consume(how):
     return f
 
 
+def iter_try_for_each(fallible):
+    """Iterator::try_for_each / for_each over a known array iterator: the closure runs for the elements in order; with
+    try_for_each a Result it returns is either Ok (go on) or the Err that ends the walk and is returned"""
+    def f(eng, st, fr, args, fn, site):
+        d = ptr_term(args[0])
+        by_ref = d[0] == 'ref'
+        it = eng.load(st, d[1]) if by_ref else args[0]
+        alts0 = _iter_alts(eng, st, fr, it) if (it[0] == 't' and it[1] in ('arr_iter', 'iter_filter', 'iter_map')) else None
+        if alts0 is None:
+            return None
+        unit = ('agg', 'tuple', None, ())
+        out = []
+        for items, conds, st0 in alts0:
+            live = [(list(conds), st0)]
+            for el in items:
+                nxt = []
+                for cs, st_k in live:
+                    alts = eng.apply_fn(st_k, fr, args[1], [el])
+                    if alts is None:
+                        return None
+                    for a_ in alts:
+                        v, c2 = a_[0], list(a_[1])
+                        st_n = st_k.copy()
+                        if len(a_) > 2 and a_[2] is not None:
+                            st_n.effects = list(a_[2])
+                        if len(a_) > 3 and a_[3] is not None:
+                            st_n.store = dict(a_[3])
+                        if not fallible:
+                            nxt.append((cs + c2, st_n))
+                        elif v[0] == 'agg' and v[2] in ('Ok', 'Err') and v[1].startswith(RES):
+                            if v[2] == 'Ok':
+                                nxt.append((cs + c2, st_n))
+                            else:
+                                out.append((v, cs + c2, list(st_n.effects), dict(st_n.store)))
+                        elif v[0] == 't':
+                            # an opaque Result (what an external call returned): Err ends the walk with that very value
+                            dv = T('discr', v)
+                            out.append((v, cs + c2 + [(dv, '==', 1)], list(st_n.effects), dict(st_n.store)))
+                            nxt.append((cs + c2 + [(dv, '==', 0)], st_n.copy()))
+                        else:
+                            return None
+                live = nxt
+                if len(live) + len(out) > 64:
+                    return None
+            for cs, st_k in live:
+                out.append((('agg', RES, 'Ok', (unit,)) if fallible else unit, cs, list(st_k.effects), dict(st_k.store)))
+        return out
+    return f
+
+
 def ref_bool_not(eng, st, fr, args, fn, site):
     """<&bool as Not>::not(r): the negation of what r points to (a closure pattern that binds a `&bool`)"""
     x = deref(eng, st, ptr_term(args[0]))
@@ -1273,6 +1323,8 @@ SUMMARIES = {
     'std::iter::Iterator::filter': iter_adaptor('iter_filter'),
     'std::iter::Iterator::map': iter_adaptor('iter_map'),
     'std::iter::Iterator::max': iter_consume('max'),
+    'std::iter::Iterator::try_for_each': iter_try_for_each(True),
+    'std::iter::Iterator::for_each': iter_try_for_each(False),
     'std::iter::Iterator::min': iter_consume('min'),
     'std::iter::Iterator::last': iter_consume('last'),
     'std::iter::Iterator::count': iter_consume('count'),
